@@ -14,10 +14,17 @@ try:
     hooks_commits = [l.split()[0] for l in open(os.path.join(V, "MANIFEST.hooks")) if l.strip() and not l.startswith("#")]
 except OSError:
     pass
+claimed = None
+try:
+    claimed = set(l.split()[0] for l in open(os.path.join(V, "claimed.txt")) if l.strip() and not l.startswith("#"))
+except OSError:
+    pass
 checks, na = [], []
 for p in props:
     cid = p["id"]
     s = specs.get(cid)
+    if claimed is not None and cid not in claimed:
+        s = None
     if not s or s.get("disabled"):
         na.append({"property_id": cid, "reason": na_reasons.get(cid, (s or {}).get("disabled_reason", "check not built yet in this round; no claim is made"))})
         continue
@@ -35,6 +42,8 @@ for p in props:
     checks.append(c)
 engines = {}
 for cid, s in specs.items():
+    if claimed is not None and cid not in claimed:
+        continue
     e = engines.setdefault(s.get("engine", "harness"), {"name": s.get("engine", "harness"), "path": "/verif/harness", "serves_properties": [], "kind_free_text": s.get("engine_text", "in-package Go test harness injected with go test -overlay; monitors and oracles from verifkit")})
     e["serves_properties"].append(cid)
 m = {
